@@ -135,6 +135,7 @@ def judge_case(ctx, res):
     if tc0 != tc1:
         ctx.violation(f"total-changes-moved {fam} {stor}", f"{schema}: sqlite3_total_changes went from {tc0} to {tc1} across the observing block", wit)
     d0, d1 = by["d0"]["ret"], by["d1"]["ret"]
+    ctx.state("distinct_library_states_observed", d0)
     if d0 != d1:
         where = diff_paths(d0, d1)
         ctx.violation(f"stored-content-changed {fam} {stor} {generic_site(where[0]) if where else ''}",
